@@ -1,0 +1,45 @@
+//go:build verif
+
+// Verification hook for properties C08-C10. Add-only; compiled only with -tags verif.
+// Builds a Task of a BASIC class attached to a parent role, without a Mesos offer, so that
+// Environment.runTasksAsHooks can be driven on a bare environment (the parent role's trigger
+// trait makes it a hook task, see GetControlMode).
+
+package task
+
+import (
+	"github.com/AliceO2Group/Control/common"
+	"github.com/AliceO2Group/Control/common/controlmode"
+	"github.com/AliceO2Group/Control/common/gera"
+	"github.com/AliceO2Group/Control/core/task/channel"
+	"github.com/AliceO2Group/Control/core/task/sm"
+	"github.com/AliceO2Group/Control/core/task/taskclass"
+)
+
+func VerifC08NewHookTask(name, taskId string, parent parentRole) *Task {
+	class := &taskclass.Class{
+		Identifier: taskclass.Id{Name: name},
+		Defaults:   gera.MakeMap[string, string](),
+		Vars:       gera.MakeMap[string, string](),
+		Properties: gera.MakeMap[string, string](),
+	}
+	class.Control.Mode = controlmode.BASIC
+	t := &Task{
+		name:         name,
+		parent:       parent,
+		className:    name,
+		hostname:     "host-verif",
+		agentId:      "agent-verif",
+		offerId:      "offer-verif",
+		taskId:       taskId,
+		executorId:   "executor-verif",
+		properties:   gera.MakeMap[string, string](),
+		localBindMap: make(channel.BindMap),
+		state:        sm.STANDBY,
+		status:       ACTIVE,
+	}
+	value := "verif-hook"
+	t.commandInfo = &common.TaskCommandInfo{CommandInfo: common.CommandInfo{Value: &value}}
+	t.GetTaskClass = func() *taskclass.Class { return class }
+	return t
+}
